@@ -118,6 +118,13 @@ class Ctx:
             self.violations.append(v)
         self.log("oracle", "VIOLATION", clause, component, disc)
 
+    def gc_point(self, label="gc"):
+        """run the cyclic garbage collector now (the only moment it runs when the property module sets GC_SEAM)"""
+        import gc
+        gc.collect()
+        self.fault("gc_finalisation_point")
+        self.log("gc", label)
+
     def fresh_dir(self, name="w"):
         d = os.path.join(self.scratch, name)
         if os.path.exists(d):
